@@ -402,6 +402,18 @@ func (g *gen) behC06() M {
 			case 0:
 				m = M{"t": "U"}
 			case 1:
+				if g.chance(0.5) {
+					// a portal whose statement function fails stays bound: executed again in the next cycle, the function
+					// runs (and fails) again
+					nm := g.name()
+					g.id++
+					fst := M{"id": g.id, "cols": []any{}, "oids": []any{}, "prog": []any{M{"op": "ret", "r": "err", "err": g.simpleErr()}}}
+					steps = append(steps, send(M{"t": "P", "name": nm, "q": M{"id": g.id, "parse": "ok", "stmts": []any{fst}}, "noids": 0}),
+						send(M{"t": "B", "portal": nm, "stmt": nm, "pfmt": []any{}, "params": []any{}, "rfmt": []any{}}),
+						send(M{"t": "E", "portal": nm, "max": 0}), send(M{"t": "S"}))
+					m = M{"t": g.pick("E", "E", "D"), "portal": nm, "max": 0, "kind": "P", "name": nm}
+					break
+				}
 				m = M{"t": "Big", "ty": g.pick("Q", "P", "B", "E", "D"), "over": 1 + g.rng.Intn(100)}
 			case 2:
 				// define, close, refer: the reference is to an unknown name
